@@ -13,7 +13,11 @@ class _RawProposal(ConvergenceController):
 
     def get_new_step_size(self, controller, S, **kwargs):
         L = S.levels[0]
-        S.status.__dict__['verif_raw'] = (L.status.dt_new, L.status.get('error_embedded_estimate'), S.status.iter)
+        old = S.status.__dict__.get('verif_raw')
+        # the operands belong to the iteration in which the proposal was (re)computed: a step that is told to keep iterating
+        # (avoid_restarts) carries its proposal along unchanged
+        if old is None or old[0] != L.status.dt_new or S.status.iter <= S.params.maxiter:
+            S.status.__dict__['verif_raw'] = (L.status.dt_new, L.status.get('error_embedded_estimate'), S.status.iter)
 
 
 class _Final(ConvergenceController):
@@ -30,9 +34,23 @@ class _ScriptedEstimate(ConvergenceController):
     the limiters and the restarting logic are the real ones)"""
 
     def setup(self, controller, params, description, **kwargs):
-        return {'control_order': -51, 'ratios': (1.0,), 'e_tol': 1.0, **super().setup(controller, params, description, **kwargs)}
+        # right after the real estimator (-80) and before everything that consumes the estimate (contraction factor -75, adaptivity -50)
+        return {'control_order': -79, 'ratios': (1.0,), 'e_tol': 1.0, 'per_iteration': False, **super().setup(controller, params, description, **kwargs)}
 
     def post_iteration_processing(self, controller, S, **kwargs):
+        if self.params.per_iteration:
+            # one scripted value per ITERATION (needed where the history of estimates matters: avoid_restarts looks at the
+            # contraction factor); after the script the estimate keeps contracting by a factor 4 per iteration
+            if S.status.iter > 0:
+                k = getattr(self, '_k', 0)
+                if k < len(self.params.ratios):
+                    r = self.params.ratios[k]
+                    self._last = r
+                else:
+                    r = self._last = getattr(self, '_last', 1.0) / 4.0
+                S.levels[0].status.error_embedded_estimate = float(r) * self.params.e_tol
+                self._k = k + 1
+            return
         if S.status.iter >= S.params.maxiter:
             k = getattr(self, '_k', 0)
             # after the scripted prefix the estimate is comfortably below the tolerance, so that every run reaches Tend
@@ -70,7 +88,7 @@ def run(case):
         from pySDC.implementations.problem_classes.TestEquation_0D import testequation0d
         pc, pp = testequation0d, dict(lambdas=np.array([-5.0 + 10j, -1.0]), u0=1.0)
     ad = dict(e_tol=case['e_tol'])
-    for k in ('dt_min', 'dt_max', 'dt_slope_min', 'dt_slope_max', 'dt_rel_min_slope', 'beta'):
+    for k in ('dt_min', 'dt_max', 'dt_slope_min', 'dt_slope_max', 'dt_rel_min_slope', 'beta', 'avoid_restarts'):
         if k in case:
             ad[k] = case[k]
     desc = dict(problem_class=pc, problem_params=pp, sweeper_class=generic_implicit,
@@ -80,7 +98,8 @@ def run(case):
                                          BasicRestartingNonMPI: dict(max_restarts=case.get('max_restarts', 10),
                                                                      crash_after_max_restarts=case.get('crash', True))})
     if case.get('script'):
-        desc['convergence_controllers'][_ScriptedEstimate] = dict(ratios=tuple(case['script']), e_tol=case['e_tol'])
+        desc['convergence_controllers'][_ScriptedEstimate] = dict(ratios=tuple(case['script']), e_tol=case['e_tol'],
+                                                                  per_iteration=bool(case.get('per_iteration')))
     c = controller_nonMPI(num_procs=1, controller_params=dict(logger_level=50, dump_setup=False, hook_class=[_Log], mssdc_jac=False),
                           description=desc)
     for S in c.MS:
@@ -125,7 +144,8 @@ def run(case):
         clip_ok = bool(fin == exp) if raw is not None else True
         dtn = fin if fin is not None else a['dt']
         out.append(dict(t=rank[a['t']], e=rank[a['t'] + a['dt']], dt=rank[a['dt']], dtnew=rank.get(dtn, 0), restart=bool(a['restart']), riar=int(a['riar']),
-                        est_lt_tol=bool(e_est is not None and e_est < e_tol), formula_ok=formula_ok, clip_ok=clip_ok,
+                        est_lt_tol=bool(a['e_est'] is not None and a['e_est'] < e_tol),  # the estimate the step ENDED with
+                        formula_ok=formula_ok, clip_ok=clip_ok,
                         lower_limit_binds=bool(lower), tend_binds=bool(a['t'] + a['dt'] + dtn > case['tend'] - 1e-12),
                         reaches_tend=bool(a['t'] + a['dt'] >= case['tend'] - 1e-9 * a['dt'])))
     return dict(exc=exc, att=out, max_restarts=case.get('max_restarts', 10), raw=[(a['t'], a['dt'], a['restart'], a['e_est']) for a in att[:6]])
